@@ -8,6 +8,9 @@ below len): "unchanged after a throw" is BUF[xv_g] == old(BUF[xv_g]) plus the un
 std::basic_string is the oracle: postconditions are its specification written over (len, chr)."""
 
 
+import re
+
+
 def generate(N, layout):
     o = []
     A = o.append
@@ -26,6 +29,18 @@ def generate(N, layout):
         A('#define OLDLEN(s) (__CPROVER_old((s)->m_storage.m_size))')
         A('#define WF(s) (LEN(s) <= FS_N && BUF(s)[LEN(s)] == 0)')
         A('#define SAME_LEN_FIELD(s) ((s)->m_storage.m_size == __CPROVER_old((s)->m_storage.m_size))')
+    elif layout == 'strlen':
+        # numpy-style layout: no stored size, size() == strlen(buffer); only generated for small N (explicit position chains)
+        assert N <= 16
+        chain = lambda f: ''.join('%s == 0 ? %dul : ' % (f(k), k) for k in range(N + 1)) + '%dul' % (N + 1)
+        A('#define ZLEN(b) (%s)' % chain(lambda k: '(b)[%d]' % k))
+        A('#define ZOLDLEN(b) (%s)' % chain(lambda k: '__CPROVER_old((b)[%d])' % k))
+        A('#define LEN(s) ZLEN(BUF(s))')
+        A('#define OLDLEN(s) ZOLDLEN(BUF(s))')
+        A('#define WF(s) (LEN(s) <= FS_N)')
+        A('#define SAME_LEN_FIELD(s) 1')
+        # characters written into a strlen-sized string must not be NUL (the layout cannot represent them)
+        A('#define NZ(p, n) (%s)' % ' && '.join('((n) <= %dul || (p)[%d] != 0)' % (k, k) for k in range(N)))
     else:
         raise Exception('layout not generated: ' + layout)
     A('#define OBJ(s) __CPROVER_is_fresh(s, sizeof(*(s)))')
@@ -43,6 +58,15 @@ def generate(N, layout):
     A('#define ON_THROW __CPROVER_ensures(xv_exc != 0 ==> UNCHANGED(self)) __CPROVER_ensures(xv_exc == 0 ==> WF(self))')
 
     def C(name, clauses):
+        if layout == 'strlen' and name.startswith('fs__'):
+            text = ' '.join(clauses)
+            extra = []
+            if re.search(r'\bch\b', text):
+                extra.append('__CPROVER_requires(ch != 0)')
+            for (pp, nn) in (('s', 'count'), ('cstr', 'count2')):
+                if 'is_fresh(%s, %s)' % (pp, nn) in text:
+                    extra.append('__CPROVER_requires(%s > FS_N || NZ(%s, %s))' % (nn, pp, nn))
+            clauses = [clauses[0]] + extra + list(clauses[1:])
         A('#define XV_CONTRACT_%s \\\n  %s' % (name, ' \\\n  '.join(clauses)))
 
     # ---- storage class
@@ -56,6 +80,14 @@ def generate(N, layout):
         C('sto__adjust_size__l', ['__CPROVER_requires(OBJ(self) && %s && (val >= 0 ? %s + (unsigned long)val <= FS_N : (unsigned long)(-val) <= %s)) GIDX' % (SWF, SL, SL),
                                   '__CPROVER_ensures(%s == (unsigned long)((long)(FS_N - UC(__CPROVER_old(%s[FS_N]))) + val) && %s[%s] == 0)' % (SL, S, S, SL),
                                   '__CPROVER_ensures((xv_g != %s && xv_g != FS_N) ==> %s[xv_g] == __CPROVER_old(%s[xv_g]))' % (SL, S, S), '__CPROVER_assigns(*self)'])
+    elif layout == 'strlen':
+        SL = 'ZLEN(%s)' % S
+        C('sto__size__v_c', ['__CPROVER_requires(OBJ(self) && %s <= FS_N)' % SL, '__CPROVER_ensures(RV == %s)' % SL, '__CPROVER_assigns()'])
+        C('sto__set_size__ul', ['__CPROVER_requires(OBJ(self) && sz <= FS_N) GIDX', '__CPROVER_ensures(%s[sz] == 0)' % S,
+                                '__CPROVER_ensures(xv_g != sz ==> %s[xv_g] == __CPROVER_old(%s[xv_g]))' % (S, S), '__CPROVER_assigns(*self)'])
+        C('sto__adjust_size__l', ['__CPROVER_requires(OBJ(self) && %s <= FS_N && (val >= 0 ? %s + (unsigned long)val <= FS_N : (unsigned long)(-val) <= %s)) GIDX' % (SL, SL, SL),
+                                  '__CPROVER_ensures(%s[(unsigned long)((long)ZOLDLEN(%s) + val)] == 0)' % (S, S),
+                                  '__CPROVER_ensures(xv_g != (unsigned long)((long)ZOLDLEN(%s) + val) ==> %s[xv_g] == __CPROVER_old(%s[xv_g]))' % (S, S, S), '__CPROVER_assigns(*self)'])
     else:
         SL = 'self->m_size'
         C('sto__size__v_c', ['__CPROVER_requires(OBJ(self))', '__CPROVER_ensures(RV == %s)' % SL, '__CPROVER_assigns()'])
@@ -120,6 +152,13 @@ def generate(N, layout):
                                '__CPROVER_ensures((xv_exc == LENERR) == (index <= OLDLEN(self) && OLDLEN(self) + count > FS_N)) ON_THROW',
                                '__CPROVER_ensures(xv_exc == 0 ==> (LEN(self) == OLDLEN(self) + count && RV == self))',
                                '__CPROVER_ensures((xv_exc == 0 && xv_g < LEN(self)) ==> UC(BUF(self)[xv_g]) == (xv_g < index ? UC(OLDCH(self)) : xv_g < index + count ? xv_a1 : xv_a2))', 'FRAME'])
+    # insert(index, count, ch)
+    C('fs__insert__ul_ul_c', ['ENTRY __CPROVER_requires(count <= 4 * FS_N)',
+                              '__CPROVER_requires((xv_g >= count && xv_g - count <= FS_N) ==> xv_a2 == UC(BUF(self)[xv_g - count]))',
+                              '__CPROVER_ensures((xv_exc == RANGEERR) == (index > OLDLEN(self)))',
+                              '__CPROVER_ensures((xv_exc == LENERR) == (index <= OLDLEN(self) && OLDLEN(self) + count > FS_N)) ON_THROW',
+                              '__CPROVER_ensures(xv_exc == 0 ==> (LEN(self) == OLDLEN(self) + count && RV == self))',
+                              '__CPROVER_ensures((xv_exc == 0 && xv_g < LEN(self)) ==> UC(BUF(self)[xv_g]) == (xv_g < index ? UC(OLDCH(self)) : xv_g < index + count ? UC(ch) : xv_a2))', 'FRAME'])
     # erase(index, count): removes min(count, len - index) characters starting at index
     A('#define ERASED (count < OLDLEN(self) - index ? count : OLDLEN(self) - index)')
     A('#define ERASED_PRE (count < LEN(self) - index ? count : LEN(self) - index)')
